@@ -90,7 +90,7 @@ func NewIngressWorld(spec *SysSpec, offset int64, opts SysOptions) (*IngressWorl
 		return nil, err
 	}
 	w := &IngressWorld{SysWorld: sw, nonces: map[string]map[string]*nonceRec{}}
-	w.Model = NewModel(QConfig{Backend: spec.Backend, MaxDepth: spec.MaxDepth, DropPolicy: spec.DropPolicy, DeliveredMaxAge: spec.Delivered})
+	w.Model = NewModel(sysQConfig(spec))
 	w.armLimiters(w.Clock.Peek())
 	return w, nil
 }
